@@ -53,9 +53,9 @@ size_t g_mm;        /* memmove: offset (inside the moved range) of the witness b
  * requires clause: the ghosts are free, so no input is restricted; r_al_on is set by the harnesses only (false after
  * AL_GHOST_RESET), and where a contract replaces a call inside the function under proof the list is still in its
  * pre-state at that call (every such call is the function's first action on the list), so the clause holds there.
- * r2_*: the second list of copy (to) and swap_contents (list_b). */
-bool r_al_on, r_dynamic, r2_dynamic;
-size_t r_length, r_current_size, r2_length, r2_current_size;
+ * r_*2: the second list of copy (to) and swap_contents (list_b). */
+bool r_al_on, r_dynamic, r_dynamic2;
+size_t r_length, r_current_size, r_length2, r_current_size2;
 #define AL_REQ_REPLAY(l, LEN, CUR, DYN)                                                                                \
     __CPROVER_requires(r_al_on ==> (LEN) == (l)->length && (CUR) == (l)->current_size && (DYN) == ((l)->alloc != NULL))
 
@@ -133,7 +133,7 @@ __CPROVER_ensures(RET == g_last_error)
     __CPROVER_requires(AL_FITS_PRE((l)->length, (l)->current_size))                                                    \
     __CPROVER_requires(AL_STORAGE_OK(l))
 #define AL_REQ_OK(l) AL_REQ_OK_(l) AL_REQ_REPLAY(l, r_length, r_current_size, r_dynamic)
-#define AL_REQ_OK_2ND(l) AL_REQ_OK_(l) AL_REQ_REPLAY(l, r2_length, r2_current_size, r2_dynamic)
+#define AL_REQ_OK_2ND(l) AL_REQ_OK_(l) AL_REQ_REPLAY(l, r_length2, r_current_size2, r_dynamic2)
 /* post-state representation invariant (storage validity is given by the frame / by is_fresh where it is replaced) */
 #define AL_INV_COMMON(l) ((l)->item_size == ISZ && (((l)->current_size == 0) == ((l)->data == NULL)))
 #define AL_INV_P(l) (AL_INV_COMMON(l) && AL_FITS_P((l)->length, (l)->current_size))
